@@ -5,6 +5,8 @@ from pyvc.interp import Interp, Spec, LoopSpec, OBJECT
 from pyvc.models import Namespace, External, EffectLog, SymSeq, TSort, TAtom, PyList
 from pyvc.values import Atom, Model, ModelClass, PyObj, Builtin, ExcClass
 from .common import Clock, pyobj, FloatVal
+from pyvc.models import TTuple
+from pyvc.values import PyRaise, ExcVal
 
 Regex = z3.DeclareSort('Regex')
 TRegex = TSort(Regex)
@@ -45,6 +47,7 @@ class ProtoHarness(object):
         'LineOnlyReceiver': line_only, 'Int32StringReceiver': int32, 'DatagramProtocol': dgram,
         'with_metaclass': Builtin('with_metaclass', lambda ip, a, k: OBJECT),
         'PluginRegistrar': OBJECT, 'state': Namespace('state', {}),
+        'sys': Namespace('sys', {'version_info': (3, 12, 1)}),
       },
       'carbon.regexlist': {},
     }
@@ -56,6 +59,10 @@ class ProtoHarness(object):
 
   def method_search(self, ip, obj, value):
     if z3.is_expr(obj) and obj.sort() == Regex:
+      if isinstance(value, PyAny):
+        value = AS_ATOM(value.term)
+      if isinstance(value, Text):
+        value = value.atom
       return SEARCH(obj, TAtom.enc(ip, value))
     from pyvc.core import EngineError
     raise EngineError(".search on %r" % (obj,))
@@ -78,3 +85,206 @@ class ProtoHarness(object):
       pass
     self.ip.loops[(RL + '.__contains__', 0)] = LoopSpec('for regex in self.regex_list', inv, havoc,
                                                           locals_modified=['regex'])
+
+
+# ------------------------------------------------------------------------------------------------
+# byte / text / arbitrary-object models for the three receivers (C01, C11)
+
+Bytes = z3.DeclareSort('Bytes')
+PyObjS = z3.DeclareSort('PyObjS')
+VALID_UTF8 = z3.Function('valid_utf8', Bytes, z3.BoolSort())
+DECODE = z3.Function('utf8_decode', Bytes, Atom)
+NFIELDS = z3.Function('whitespace_field_count', Atom, z3.IntSort())        # len(s.strip().split())
+FIELD = z3.Function('whitespace_field', Atom, z3.IntSort(), Atom)
+FLOAT_OK = z3.Function('float_syntax', Atom, z3.BoolSort())
+FLOAT_KIND = z3.Function('float_kind', Atom, z3.IntSort())
+FLOAT_VAL = z3.Function('float_value', Atom, z3.RealSort())
+# text lines of a datagram
+NLINES = z3.Function('splitlines_count', Atom, z3.IntSort())
+LINE = z3.Function('splitlines_item', Atom, z3.IntSort(), Atom)
+BNLINES = z3.Function('bytes_splitlines_count', Bytes, z3.IntSort())
+BLINE = z3.Function('bytes_splitlines_item', Bytes, z3.IntSort(), Bytes)
+# arbitrary unpickled objects
+IS_PAIR = z3.Function('is_2_sequence', PyObjS, z3.BoolSort())
+FST = z3.Function('item0', PyObjS, PyObjS)
+SND = z3.Function('item1', PyObjS, PyObjS)
+IS_STR = z3.Function('is_str', PyObjS, z3.BoolSort())
+AS_ATOM = z3.Function('str_value', PyObjS, Atom)
+OBJ_FLOAT_OK = z3.Function('float_accepts', PyObjS, z3.BoolSort())
+OBJ_FLOAT_KIND = z3.Function('float_of_kind', PyObjS, z3.IntSort())
+OBJ_FLOAT_VAL = z3.Function('float_of_value', PyObjS, z3.RealSort())
+ITERABLE = z3.Function('is_iterable', PyObjS, z3.BoolSort())
+ITEMS = z3.Function('iter_items', PyObjS, z3.SeqSort(PyObjS))
+
+
+class Text(Model):
+  """a str obtained from the wire: strip()/split()/splitlines()/float() are uninterpreted
+  functions of the text (A-STR)"""
+  def __init__(self, atom, stripped=False):
+    self.atom = atom
+    self.stripped = stripped
+
+  def py_strip(self, ip):
+    return Text(self.atom, True)
+
+  def py_split(self, ip):
+    return Fields(self.atom)
+
+  def py_splitlines(self, ip):
+    return TextLines(self.atom)
+
+  def py___len__(self, ip):
+    return z3.Function('str_len', Atom, z3.IntSort())(self.atom)
+
+  def py_slice(self, ip, lo, hi):
+    return Text(z3.Function('str_slice', Atom, Atom)(self.atom))
+
+  def py_binop(self, ip, op, other, reflected):
+    return Text(z3.Function('str_concat_any', Atom, Atom)(self.atom))
+
+
+class Fields(Model):
+  def __init__(self, atom):
+    self.atom = atom
+
+  def py_unpack(self, ip, n):
+    if not ip.ctx.branch(NFIELDS(self.atom) == n, 'field count'):
+      raise PyRaise(ExcVal('ValueError', ('unpack',)))
+    return [FIELD(self.atom, z3.IntVal(i)) for i in range(n)]
+
+
+class TextLines(Model):
+  def __init__(self, atom):
+    self.atom = atom
+
+  def as_symseq(self, ip):
+    s = SymSeq.fresh(ip, TTextLine, 'lines')
+    i = z3.Int('i?')
+    ip.ctx.assume(s.length() == NLINES(self.atom))
+    ip.ctx.assume(NLINES(self.atom) >= 0)
+    ip.ctx.assume(z3.ForAll([i], z3.Implies(z3.And(0 <= i, i < s.length()), s.term[i] == LINE(self.atom, i))))
+    return s
+
+
+class _TTextLine(TSort):
+  def __init__(self):
+    TSort.__init__(self, Atom)
+
+  def dec(self, term):
+    return Text(term)
+
+  def enc(self, ip, v):
+    return v.atom if isinstance(v, Text) else v
+
+
+TTextLine = _TTextLine()
+
+
+class BytesVal(Model):
+  def __init__(self, term):
+    self.term = term
+
+  def py_decode(self, ip, encoding='utf-8'):
+    if encoding not in ('utf-8', 'utf8'):
+      from pyvc.core import EngineError
+      raise EngineError("decode(%r)" % (encoding,))
+    if not ip.ctx.branch(VALID_UTF8(self.term), 'valid utf-8'):
+      raise PyRaise(ExcVal('UnicodeDecodeError', ()))
+    return Text(DECODE(self.term))
+
+  def py_splitlines(self, ip):
+    return BytesLines(self.term)
+
+  def py___len__(self, ip):
+    return z3.Function('bytes_len', Bytes, z3.IntSort())(self.term)
+
+  def py_slice(self, ip, lo, hi):
+    return BytesVal(z3.Function('bytes_slice', Bytes, Bytes)(self.term))
+
+  def py_binop(self, ip, op, other, reflected):
+    if isinstance(other, str) or isinstance(other, Text):
+      raise PyRaise(ExcVal('TypeError', ("can't concat str to bytes",)))
+    return BytesVal(z3.Function('bytes_concat_any', Bytes, Bytes)(self.term))
+
+  def py_strip(self, ip):
+    return BytesVal(z3.Function('bytes_strip', Bytes, Bytes)(self.term))
+
+
+class BytesLines(Model):
+  def __init__(self, term):
+    self.term = term
+
+  def as_symseq(self, ip):
+    s = SymSeq.fresh(ip, TBytesLine, 'blines')
+    i = z3.Int('i?')
+    ip.ctx.assume(s.length() == BNLINES(self.term))
+    ip.ctx.assume(BNLINES(self.term) >= 0)
+    ip.ctx.assume(z3.ForAll([i], z3.Implies(z3.And(0 <= i, i < s.length()), s.term[i] == BLINE(self.term, i))))
+    return s
+
+
+class _TBytesLine(TSort):
+  def __init__(self):
+    TSort.__init__(self, Bytes)
+
+  def dec(self, term):
+    return BytesVal(term)
+
+  def enc(self, ip, v):
+    return v.term if isinstance(v, BytesVal) else v
+
+
+TBytesLine = _TBytesLine()
+
+
+def float_of_atom(ip, a):
+  """float(text): ValueError unless float syntax; may be nan / +-inf (A-STR)"""
+  if not ip.ctx.branch(FLOAT_OK(a), 'float syntax'):
+    raise PyRaise(ExcVal('ValueError', ('could not convert string to float',)))
+  ip.ctx.assume(z3.And(FLOAT_KIND(a) >= 0, FLOAT_KIND(a) <= 3))
+  return FloatVal(FLOAT_KIND(a), FLOAT_VAL(a))
+
+
+class PyAny(Model):
+  """an arbitrary object produced by the (safe) unpickler: plain built-in data of unknown shape"""
+  def __init__(self, term):
+    self.term = term
+
+  def py_unpack(self, ip, n):
+    if n == 2 and ip.ctx.branch(IS_PAIR(self.term), 'is a 2-sequence'):
+      return [PyAny(FST(self.term)), PyAny(SND(self.term))]
+    k = ip.ctx.choose(2, 'unpack error kind')
+    raise PyRaise(ExcVal('TypeError' if k == 0 else 'ValueError', ('cannot unpack',)))
+
+  def py___float__(self, ip):
+    if ip.ctx.branch(OBJ_FLOAT_OK(self.term), 'float() accepts'):
+      ip.ctx.assume(z3.And(OBJ_FLOAT_KIND(self.term) >= 0, OBJ_FLOAT_KIND(self.term) <= 3))
+      return FloatVal(OBJ_FLOAT_KIND(self.term), OBJ_FLOAT_VAL(self.term))
+    k = ip.ctx.choose(3, 'float() error kind')
+    raise PyRaise(ExcVal(('TypeError', 'ValueError', 'OverflowError')[k], ()))
+
+  def py_getattr(self, ip, name):
+    # plain data other than str has no .encode (bytes, numbers, None, containers)
+    raise PyRaise(ExcVal('AttributeError', (name,)))
+
+  def as_symseq(self, ip):
+    if not ip.ctx.branch(ITERABLE(self.term), 'payload iterable'):
+      raise PyRaise(ExcVal('TypeError', ('object is not iterable',)))
+    return SymSeq(TPyAny, ITEMS(self.term), 'payload_items')
+
+  def py___iter__(self, ip):
+    return self.as_symseq(ip)
+
+
+class _TPyAny(TSort):
+  def __init__(self):
+    TSort.__init__(self, PyObjS)
+
+  def dec(self, term):
+    return PyAny(term)
+
+  def enc(self, ip, v):
+    return v.term if isinstance(v, PyAny) else v
+
+
+TPyAny = _TPyAny()
